@@ -12,6 +12,8 @@ import json
 import os
 import random
 import re
+import shutil
+import tempfile
 import time
 
 import vlib
@@ -46,6 +48,40 @@ def export_cases(ctx, cfg, timeout):
     if not lines:
         raise vlib.Machinery('OciRefMC exported no cases')
     return lines
+
+
+def validate_trace(ctx, module, cfg, trace, consts=None, timeout=900, first_line=2):
+    """vlib.validate_trace with (a) small JVMs (a validation run is single-worker; 16 of them
+    run side by side) and (b) a retry when TLC neither accepted nor rejected the trace: on a
+    heavily loaded machine a JVM was seen to die without output.  Same result shape."""
+    last = ''
+    for attempt in range(3):
+        d = ctx.specdir()
+        with open(trace) as f:
+            hdr = json.loads(f.readline())
+        open(os.path.join(d, 'TraceHdr.tla'), 'w').write(vlib.tlaval.header_module('TraceHdr', hdr))
+        c = vlib.cfg_with(ctx, d, cfg, consts) if consts else cfg
+        jt = tempfile.mkdtemp(prefix='jt-', dir=ctx.work)      # run_tlc's env argument replaces its own JAVA_TOOL_OPTIONS
+        r = vlib.run_tlc(ctx, d, module + '.tla', c, workers=1, timeout=timeout,
+                         env={'TRACE_FILE': os.path.abspath(trace),
+                              'JAVA_TOOL_OPTIONS': (os.environ.get('JAVA_TOOL_OPTIONS', '') + ' -Djava.io.tmpdir=' + jt +
+                                                    ' -Xss64m -Xmx3g -XX:ParallelGCThreads=2 -XX:CICompilerCount=2').strip()})
+        shutil.rmtree(d, ignore_errors=True)
+        shutil.rmtree(jt, ignore_errors=True)
+        out = r['out']
+        if r['ok']:
+            return dict(accepted=True, states=r.get('distinct', 0), generated=r.get('generated', 0))
+        if 'Postcondition' in out and 'is false' in out and 'depth' in r:
+            return dict(accepted=False, line=first_line + r['depth'] - 1, states=r.get('distinct', 0))
+        last = 'rc=%s wall=%.1fs\n%s\n...%s' % (r['rc'], r['wall'], vlib.tlc_errors(out), out[-1500:])
+        if 'Assert' in out or 'specification error' in out or 'arsing' in vlib.tlc_errors(out):
+            break          # deterministic: an error of the specification itself
+        ctx.log('trace validation of %s gave no verdict (attempt %d), retrying' % (os.path.basename(trace), attempt + 1))
+        time.sleep(2 + 3 * attempt)
+    raise vlib.Machinery('trace validation %s on %s broke:\n%s' % (module, trace, last))
+
+
+vlib.validate_trace = validate_trace     # judge_traces / classify look it up in vlib
 
 
 def split_cases(lines):
